@@ -1,5 +1,7 @@
 import TapkeeVerif.Proofs.ConnectedPerm
 import TapkeeVerif.Proofs.ConnectedOracle
+import TapkeeVerif.Proofs.ConnectedBridge
+import TapkeeVerif.Props.C02
 import TapkeeVerif.Model.Knn
 /-!
 # Property C03 — check_connectivity guarantees a graph on which all geodesics are finite
@@ -99,6 +101,49 @@ theorem stronglyConnected_order_independent {g : Graph} {N k : Nat} {π inv : Li
     StronglyConnected (relabel g π inv) N ↔ StronglyConnected g N :=
   stronglyConnected_relabel hu hp hN
 
+/-- **all geodesics are finite** (join with C04): on a strongly connected graph with uniform lists and non-negative
+    weights, for both queue disciplines and every tie-breaking stream, the row that the model of
+    `compute_shortest_distances_matrix` (C04, `dijkstra_exact`: `none` iff unreachable) computes for any source has no
+    `dblmax` entry. -/
+theorem C03_geodesic_matrix_finite {K : Type} [AddCommMonoid K] [LinearOrder K] [IsOrderedAddMonoid K]
+    {g : Graph} {N k : Nat} (hu : Uniform g N k) (hN : 0 < N) (hsc : StronglyConnected g N)
+    (w : Nat → Nat → K) (hw : ∀ a b, 0 ≤ w a b) (disc : Dijkstra.Disc) (ch : Nat → Nat) {s : Nat} (hs : s < N) :
+    ∃ r, Dijkstra.row (problemOf g N w) disc k ch s s = .ok r ∧ ∀ v (hv : v < N), r[v] ≠ none :=
+  geodesics_finite hu hN hsc w hw disc ch hs
+
+/-- **the result is order independent as far as the data determine it**: if, for every k, the search on the
+    re-ordered samples returns — up to the order inside each list — the relabelled lists of the search on the
+    original order (the case of every exact search on tie-free data: `exactKnn_unique_of_tieFree`), then
+    `find_neighbors(.., true)` tries the same k sequence in both orders, stops at the same final k and returns the
+    graphs of that k (`SameRun`).  With ties the k-NN graph itself is not determined by the data, and neither is the
+    result. -/
+theorem result_order_independent (search search' : Nat → Graph) {N : Nat} (hN : 0 < N) {π inv : List Nat}
+    (hp : IsPermPair π inv N)
+    (hu : ∀ k, k ≤ N - 1 → Uniform (search k) N k) (hu' : ∀ k, k ≤ N - 1 → Uniform (search' k) N k)
+    (heq : ∀ k, k ≤ N - 1 → SameEdges (relabel (search k) π inv) (search' k) N) (fuel k : Nat) :
+    SameRun search search' (findNeighbors search N true fuel k []) (findNeighbors search' N true fuel k []) :=
+  findNeighbors_order_independent search search' hN hp hu hu' heq fuel k []
+
+/-- on tie-free data the exact k-NN set of a sample is unique: two exact lists are permutations of each other -/
+theorem exactKnn_unique_of_tieFree {α K : Type} [DecidableEq α] [LinearOrder K] {δ : α → α → K} {pts : List α}
+    {k : Nat} {i : α} {l l' : List α} (h : IsExactKnn δ pts k i l) (h' : IsExactKnn δ pts k i l')
+    (htf : ∀ a ∈ pts, ∀ b ∈ pts, δ i a = δ i b → a = b) : l.Perm l' := by
+  obtain ⟨_, hnd, _, hsub, hs⟩ := h
+  obtain ⟨_, hnd', _, hsub', hs'⟩ := h'
+  have hm : (l.map (δ i)).Perm (l'.map (δ i)) :=
+    (sortK_perm _).symm.trans ((hs.trans hs'.symm) ▸ sortK_perm _)
+  rw [List.perm_ext_iff_of_nodup hnd hnd']
+  intro a
+  constructor
+  · intro ha
+    obtain ⟨b, hb, hfb⟩ := List.mem_map.1 (hm.mem_iff.1 (List.mem_map.2 ⟨a, ha, rfl⟩))
+    rw [← htf b (hsub' b hb) a (hsub a ha) hfb]
+    exact hb
+  · intro ha
+    obtain ⟨b, hb, hfb⟩ := List.mem_map.1 (hm.mem_iff.2 (List.mem_map.2 ⟨a, ha, rfl⟩))
+    rw [← htf b (hsub b hb) a (hsub' a ha) hfb]
+    exact hb
+
 /-- the executable oracle the driver runs on the implementation's lists (closure from every vertex — an
     algorithm independent of `is_connected`) is sound: `true` means strongly connected -/
 theorem stronglyConnected_sound {g : Graph} {N : Nat} (hlen : g.length = N) (h : stronglyConnected g N = true) :
@@ -131,6 +176,17 @@ example : isConnected 3 [[1, 2], [2, 0], [0, 1]] = .ok true := by decide
 example : WFG 3 [[1], [2], [1]] := by
   refine ⟨rfl, ?_⟩
   decide
+
+/-- the hypothesis `hexact` of `findNeighbors_terminates` is met by the brute-force model of C02 on five points of the
+    integer line (`brute_exact`), so the termination theorem applies to it -/
+example : ∃ f, findNeighbors (fun k => (List.range 5).map (bruteKnn lineDist (List.range 5) k)) 5 true (findFuel 5) 2 []
+    = .ok f :=
+  findNeighbors_terminates lineDist _ (by decide) (by decide) (fun k => by simp)
+    (fun k hk u hu => by
+      have hu5 : u < 5 := by simpa using hu
+      simp only [List.getElem_map, List.getElem_range]
+      exact brute_exact List.nodup_range (List.mem_range.2 hu5) (by simpa using (by omega : k < 5))
+        (fun j _ => by simp [lineDist]) (bruteKnn_admissible lineDist (List.range 5) k u))
 
 /-- a search that needs one doubling: two pairs that only see each other at k = 1 -/
 example : findNeighbors (fun k => if k = 1 then [[1], [0], [3], [2]] else [[1, 2, 3], [0, 2, 3], [3, 0, 1], [2, 0, 1]])
